@@ -16,7 +16,7 @@ def M(name, cuts, v0, v2, what, extra=()):
     c = list(cuts) + [0] * (3 - len(cuts))
     return dict(file="C05m.c", name="h05m-" + name, function="h05m", repo_srcs=_msrcs, remove_bodies=_mrb, models=_mm,
                 cbmc_extra=["--max-field-sensitivity-array-size", "256"], defines=["-DFCAP=8", "-DV_BUF_SIZE=2", "-DV_UTHASH_MODEL", "-DMEM_MAX=136", "-DMEMSET_MAX=300", "-DRA_MAX=136", "-DV_READ_LOOP", "-DV0=%d" % v0, "-DV2=%d" % v2] + ["-DCUT%d=%d" % (k + 1, x) for k, x in enumerate(c)] + list(extra),
-                unwind=140, unwindset=["dl_write_range:5", "zero_chunk.0:3", "memset.0:302"], what=what, timeout=600,
+                unwind=140, unwindset=["dl_write_range:5", "zero_chunk.0:3", "memset.0:302"], what=what, timeout=1500,
                 functions=["zck_write_chunk_cb", "multipart_extract", "gen_regex", "add_boundary_to_regex", "dl_write_range", "dl_write", "set_chunk_valid", "zero_chunk", "zck_dl_free"],
                 bounds="multipart response with 2 parts (boundary B, extra part header line, mixed-case field name), 3 chunks of 2 bytes (0 and 2 requested), cuts %s, verdicts %d/%d; payload symbolic" % (cuts, v0, v2))
 # response layout: part1 header = 77 bytes (0..76), payload 77..78, part2 header 79..115 (37 bytes), payload 116..117, tail 118..126
